@@ -12,7 +12,11 @@ package main
 //     states it, here the implementation is held to it.
 
 import (
+	"fmt"
 	"math/big"
+	"strings"
+
+	"github.com/hyperledger/firefly-signer/pkg/abi"
 
 	"verifharness/abigen"
 )
@@ -55,5 +59,73 @@ func (h *H) refereeStreams() {
 		h.addEnc("int-leading-zero-text", mode, one(u16), lst(xstr("0400")), okv(u16, 256), false, "")
 		h.addEnc("int-leading-zero-text", mode, one(u8), lst(xstr("-00")), okv(u8, 0), false, "")
 		h.addEnc("int-leading-zero-text", mode, one(u8), lst(xstr("1_")), nil, true, "")
+	}
+}
+
+// ---------------------------------------------------------------------------------------------
+// issue 4(ii): the component tree given to the model is the tree pkg/abi built
+// ---------------------------------------------------------------------------------------------
+
+var baseKinds = map[string]string{"uint": "EUInt", "int": "EInt", "address": "EAddress", "bool": "EBool", "fixed": "EFixed",
+	"ufixed": "EUFixed", "bytes": "EBytes", "string": "EString", "function": "EFunction"}
+
+// treeCoq prints a type component tree built by pkg/abi (through its public accessors only) in the
+// format of abigen.CoqTcomp.
+func treeCoq(tc abi.TypeComponent) string {
+	k := abigen.CoqBytes([]byte(tc.KeyName()))
+	switch tc.ComponentType() {
+	case abi.FixedArrayComponent:
+		return fmt.Sprintf("(TCFixedArr %d %s %s)", tc.FixedArrayLen(), treeCoq(tc.ArrayChild()), k)
+	case abi.DynamicArrayComponent:
+		return fmt.Sprintf("(TCDynArr %s %s)", treeCoq(tc.ArrayChild()), k)
+	case abi.TupleComponent:
+		p := make([]string, len(tc.TupleChildren()))
+		for i, c := range tc.TupleChildren() {
+			p[i] = treeCoq(c)
+		}
+		return "(TCTuple [" + strings.Join(p, "; ") + "] " + k + ")"
+	}
+	e := "E?"
+	if et := tc.ElementaryType(); et != nil {
+		e = baseKinds[string(et.BaseType())]
+	}
+	return fmt.Sprintf("(TCElem %s %s %d %d %s)", e, abigen.CoqBytes([]byte(tc.ElementarySuffix())), tc.ElementaryM(), tc.ElementaryN(), k)
+}
+
+// checkTree: the `tcomp` list written into the Coq case (abigen.CoqTcompList of the generator's own
+// type description) must be the tree typecomponents.go built for the parameter array the
+// implementation was run on - entry by entry: table entry, suffix after alias expansion, M, N, key
+// names on every level, array lengths.  Called after the request (the request itself parses).
+func (h *H) checkTree(d *desc, pa abi.ParameterArray, ts []*abigen.Type) {
+	var got string
+	func() {
+		defer func() {
+			if r := recover(); r != nil {
+				got = fmt.Sprintf("panic: %v", r)
+			}
+		}()
+		root, err := pa.TypeComponentTree()
+		if err != nil {
+			got = "" // not a valid parameter list: outside the quantifier
+			return
+		}
+		p := make([]string, len(root.TupleChildren()))
+		for i, c := range root.TupleChildren() {
+			p[i] = treeCoq(c)
+		}
+		got = "[" + strings.Join(p, "; ") + "]"
+	}()
+	if got == "" {
+		return
+	}
+	h.st.Hit("tree-compared")
+	if want := abigen.CoqTcompList(ts); got != want {
+		if len(got) > 600 {
+			got = got[:600] + "..."
+		}
+		if len(want) > 600 {
+			want = want[:600] + "..."
+		}
+		h.fail("the type component tree pkg/abi built differs from the tree given to the model", d, "pkg/abi: "+got+"  model: "+want)
 	}
 }
